@@ -360,6 +360,9 @@ func ruleR20Keepdims(c *Ctx, prop string) {
 			}
 			found := ""
 			for f := range reach {
+				if fnPkgPath(f) != fnPkgPath(apply) {
+					continue // the operator's own code: a test inside a shared helper (ops.ReduceAxes) says nothing about the kept shape
+				}
 				for _, b := range f.Blocks {
 					for _, in := range b.Instrs {
 						bo, isBo := in.(*ssa.BinOp)
